@@ -305,6 +305,27 @@ def main():
             sig = s
             break
     rng = np.random.default_rng(int(os.environ.get("VERIF_SEED", "0") or 0) + 12345)
+    if "carries Auto's settings" in witness.get("clause", ""):
+        # large-operator side of the automatic switch: no solve is run, only the algorithm object that was built is inspected
+        from cola.ops.operator_base import LinearOperator
+        from cola.linalg.algorithm_base import Auto
+        import cola
+        n = 1001
+        for psd in (False, True):
+            A = LinearOperator(np.float64, (n, n), matmat=lambda X: 2.0 * X)
+            if psd:
+                A = cola.PSD(A)
+            settings = dict(tol=1e-9, max_iters=77)
+            r = sig.implementation(A, Auto(**settings))
+            alg_obj = getattr(r, "alg", None)
+            got = {k: getattr(alg_obj, k, None) for k in settings}
+            if got != settings:
+                print(json.dumps(dict(replayed=True, failing_input_found=True, observed=f"{type(alg_obj).__name__} with {got}", expected=str(settings),
+                                      args=[f"generic {n}x{n} operator (PSD={psd})", f"Auto(**{settings})"],
+                                      how="real Auto rule on an operator with more than 1e6 entries; the returned IterativeOperatorWInfo.alg is inspected")))
+                return
+        print(json.dumps(dict(replayed=True, failing_input_found=False, trials=2)))
+        return
     tried = errors = 0
     first_err = None
     for t in range(n_trials):
